@@ -1,34 +1,50 @@
 //! C12 — after any reorg the pool agrees with the new chain: no stale, dead or lost txs.
 //!
 //! A real node with tx-pool service and block assembler (mine mode) is driven through random
-//! histories: submissions (chains, joins, conflicts, header-dep txs), blocks mined from the node's
-//! own templates, competing ChainBuilder branches (proposing / committing pool txs and conflicting
-//! txs, reorgs of depth 1..w_far+2) and clock jumps (expiry). After every chain change the harness
-//! waits until the pool has processed the notification (`get_tx_pool_info().tip_hash == tip`; the
-//! pool's snapshot is swapped under the same write lock that does the whole update and the re-adds)
-//! and evaluates the property on the implementation alone; the part of the update that is a pure
-//! function of (pool before, attached txs, detached headers, detached proposals, new window) is
-//! also sent to the model (`_update_tx_pool_for_reorg` on the pre-existing entries).
+//! histories: submissions (chains, joins, conflicts, header-dep txs, CELL-DEP txs and spenders of the
+//! dep cells), blocks mined from the node's own templates, competing ChainBuilder branches
+//! (proposing / committing pool txs and conflicting txs, reorgs of depth 1..w_far+2), blocks of
+//! "another miner" with an explicit choice of proposals and commitments (`forkx`: a pooled tx is
+//! committed WITHOUT the pooled txs it conflicts with through cell deps / inputs, on an extension
+//! and on a new branch) and clock jumps (expiry). After every chain change the harness waits until
+//! the pool has processed the notification (`get_tx_pool_info().tip_hash == tip`; the pool's
+//! snapshot is swapped under the same write lock that does the whole update and the re-adds) and
+//! evaluates the property on the implementation alone; the whole write-locked section
+//! (`_update_tx_pool_for_reorg` + `readd_detached_tx`) is a pure function of (pool before, attached
+//! txs, detached txs, detached headers, detached proposals, new window, live cells before) and is
+//! sent to the model.
 //!
 //! Op lines:
 //!   cfg <epoch_len> <w_close> <w_far> <ba_interval_ms> <expiry_hours> <max_ancestors>      -> ok
-//!   submit <tid> <t.i,..> <n_out> <fee> <hdep depth|->                                     -> ok
+//!   submit <tid> <t.i,..> <n_out> <fee> <hdep depth|-> [<cell deps t.i,..|->]              -> ok
 //!   time <ms>               advance the (fake) clock                                        -> ok
 //!   mine                    template -> block -> process; emits the reorg lines             -> ok
 //!   fork <back> <extra> <nprop> <ncommit>   ChainBuilder branch, processed block by block;
-//!                           the reorg lines are emitted for the block that switches the chain -> ok
+//!                           the reorg lines are emitted for every block that changes the chain -> ok
+//!   forkx <back> <len> <proposal tids|-> <commit tids|->   another miner's blocks: branch from
+//!                           tip-back (0 = extension) of <len> blocks, the first proposes the given
+//!                           txs, the given txs are committed (in that order, if valid there) from
+//!                           block 1+w_close on                                              -> ok
 //!   derived (ignored on replay, regenerated):
 //!     rpool                                                  -> ok
-//!     rent <id> <status 0 pending|1 gap|2 proposed> <spent outpoints> <dep outpoints> <header ids> <descendants>  -> ok
-//!     ratt <id> <spent outpoints>                            -> ok   (attached txs, block order)
-//!     rargs <detached header ids> <detached proposal ids> <gap ids> <proposed ids>   -> ok
-//!     rafter                -> <id>:<status>,... of the PRE-EXISTING entries still pooled, sorted
-//!   (outpoint code = tid*16+idx, genesis cell k = k; header id = index in the harness's block table)
+//!     rent <id> <status 0 pending|1 gap|2 proposed> <spent> <cell deps> <header ids> <created> <size>  -> ok
+//!     ratt <id> <spent> <cell deps> <header ids> <created> <ok 0|1> <size>   -> ok   (attached txs, block order)
+//!     rdet <id> <spent> <cell deps> <header ids> <created> <ok 0|1> <size>   -> ok   (detached txs, block order)
+//!     rargs <detached header ids> <detached proposal ids> <gap ids> <proposed ids> <max_ancestors> <max_pool_size>   -> ok
+//!     rlive <out-points live at the old tip>   -> out-points live at the new tip (of those the harness knows)
+//!     rlinks                -> <id>:<descendants '.'-separated>,... `calc_descendants` of every entry pooled before
+//!     rafter <expired ids>  -> <id>:<status>,... the pool after the update and the re-adds, sorted
+//!     rback                 -> <id>:<0|1>,... per detached-only tx (block order): pooled afterwards?
+//!   (outpoint code = tid*16+idx, genesis cell k = 2000000+k, the always-success code cell = 1000000;
+//!    header id = index in the harness's block table; ok = fee >= min_fee_rate * size / 1000)
 //!
-//! Oracle classes: `committed-in-pool`, `dead-or-unknown-input`, `double-spend-in-pool`,
-//! `detached-header-dep`, `lost-tx` (committed only on the abandoned branch, admissible, not back),
-//! `stage-mismatch` (status vs proposal window). Sub-classes that name the cause found on the
-//! unchanged tree: `input-of-expired-parent` (F5: remove_expired dropped the parent only),
+//! Oracle classes (the property on the real pool after every chain change): `committed-in-pool`,
+//! `dead-or-unknown-input`, `dead-or-unknown-cell-dep`, `double-spend-in-pool`,
+//! `dep-spent-by-non-descendant` (a pooled tx spends a cell another pooled tx depends on without
+//! being its descendant: no valid commit order is recorded), `detached-header-dep`, `lost-tx`
+//! (committed only on the abandoned branch, admissible, not back), `stage-mismatch` (status vs
+//! proposal window). Sub-classes that name the cause found on the unchanged tree:
+//! `input-of-expired-parent` (F5: remove_expired dropped the parent only),
 //! `input-of-detached-parent-not-readmitted` (the parent was committed on the abandoned branch and
 //! could not be re-admitted; nothing evicts its pooled descendants), `stage-gap-outside-window`
 //! (a gap entry whose proposal was in the gap part of the abandoned branch stays gap).
@@ -42,11 +58,11 @@ use ckb_network::{Flags, NetworkController, NetworkService, NetworkState, networ
 use ckb_shared::{Shared, SharedBuilder};
 use ckb_store::ChainStore;
 use ckb_tx_pool::verif::Status;
-use ckb_types::core::{BlockView, Capacity, TransactionView};
+use ckb_types::core::{BlockView, Capacity, DepType, TransactionView};
 use ckb_types::h256;
-use ckb_types::packed::{self, Byte32, OutPoint, ProposalShortId};
+use ckb_types::packed::{self, Byte32, CellDep, OutPoint, ProposalShortId};
 use ckb_types::prelude::*;
-use std::collections::{BTreeMap, HashMap, HashSet};
+use std::collections::{HashMap, HashSet};
 use std::path::{Path, PathBuf};
 use std::sync::Arc;
 use std::time::{Duration, Instant};
@@ -121,6 +137,8 @@ struct Cfg {
     interval_ms: u64,
     expiry_hours: u64,
     max_ancestors: u64,
+    min_fee_rate: u64,
+    max_pool_size: u64,
 }
 
 /// what the pool held at some moment (from the verif dump)
@@ -131,8 +149,21 @@ struct PEnt {
     spent: Vec<u64>,
     deps: Vec<u64>,
     hdeps: Vec<usize>,
+    outs: Vec<u64>,
+    size: u64,
+    /// `calc_descendants` of the real link map
     desc: Vec<usize>,
+    /// `calc_ancestors` of the real link map
+    anc: Vec<usize>,
     timestamp: u64,
+}
+
+/// what the harness records before a block is handed to the chain
+struct Pre {
+    pool: Vec<PEnt>,
+    chain: Vec<Byte32>,
+    proposed: HashSet<ProposalShortId>,
+    live: Vec<u64>,
 }
 
 struct World {
@@ -142,6 +173,8 @@ struct World {
     main: PNode,
     builder: ChainBuilder,
     txs: Vec<TransactionView>,
+    fees: Vec<u64>,
+    code_cell: OutPoint,
     tid_by_short: HashMap<ProposalShortId, usize>,
     tid_by_hash: HashMap<Byte32, usize>,
     gcells: Vec<(OutPoint, u64)>,
@@ -176,6 +209,9 @@ impl World {
         let clock = std::time::SystemTime::now().duration_since(std::time::UNIX_EPOCH).unwrap().as_millis() as u64;
         guard.set_faketime(clock);
         let mut tp = TxPoolConfig::default();
+        let mut cfg = cfg;
+        cfg.min_fee_rate = tp.min_fee_rate.as_u64();
+        cfg.max_pool_size = tp.max_tx_pool_size as u64;
         tp.max_ancestors_count = cfg.max_ancestors as usize;
         tp.expiry_hours = cfg.expiry_hours as u8;
         let main = PNode::start(&dir.join("main"), consensus.clone(), tp, cfg.interval_ms);
@@ -183,7 +219,7 @@ impl World {
         let gcells = genesis_cells(&consensus);
         let mut block_ids = HashMap::new();
         block_ids.insert(consensus.genesis_hash(), 0);
-        World { dir, cfg, consensus, main, builder, txs: vec![], tid_by_short: HashMap::new(), tid_by_hash: HashMap::new(), gcells, block_ids, salt: 1000, ever_detached: HashSet::new(), expired_removed: HashSet::new(), clock, guard }
+        World { dir, cfg, consensus, main, builder, txs: vec![], fees: vec![], code_cell: always_success_dep().out_point(), tid_by_short: HashMap::new(), tid_by_hash: HashMap::new(), gcells, block_ids, salt: 1000, ever_detached: HashSet::new(), expired_removed: HashSet::new(), clock, guard }
     }
 
     fn finish(self) {
@@ -230,9 +266,56 @@ impl World {
             Some(t) => *t as u64 * 16 + idx as u64,
             None => match self.gcells.iter().position(|(g, _)| g == op) {
                 Some(k) => 2_000_000 + k as u64,
-                None => 1_000_000, // the always-success code cell (cell dep of every tx), never spent
+                None if *op == self.code_cell => 1_000_000, // the always-success code cell (cell dep of every tx), never spent
+                None => 999_999,
             },
         }
+    }
+
+    /// every out-point the harness knows, with its code
+    fn universe(&self) -> Vec<(u64, OutPoint)> {
+        let mut v: Vec<(u64, OutPoint)> = vec![(1_000_000, self.code_cell.clone())];
+        for (k, (op, _)) in self.gcells.iter().enumerate() {
+            v.push((2_000_000 + k as u64, op.clone()));
+        }
+        for (t, tx) in self.txs.iter().enumerate() {
+            for i in 0..tx.outputs().len() {
+                v.push(((t as u64 + 1) * 16 + i as u64, OutPoint::new(tx.hash(), i as u32)));
+            }
+        }
+        v
+    }
+
+    /// the known out-points that are live in the current snapshot
+    fn live_codes(&self) -> Vec<u64> {
+        let snap = self.main.shared.snapshot();
+        self.universe().into_iter().filter(|(_, op)| snap.have_cell(op)).map(|(c, _)| c).collect()
+    }
+
+    fn pre(&mut self) -> Pre {
+        Pre { pool: self.dump(), chain: self.main_chain(), proposed: self.main.shared.snapshot().proposals().set().clone(), live: self.live_codes() }
+    }
+
+    /// fee policy + verification verdict of a transaction (scripts always succeed here)
+    fn tx_ok(&self, tid: usize) -> bool {
+        let size = self.txs[tid - 1].data().serialized_size_in_block() as u64;
+        self.fees[tid - 1] >= self.cfg.min_fee_rate * size / 1000
+    }
+
+    /// `<id> <spent> <cell deps> <header ids> <created> <ok> <size>` of a block transaction
+    fn ctx_fields(&mut self, t: &TransactionView) -> String {
+        let tid = *self.tid_by_hash.get(&t.hash()).expect("block tx built by the harness");
+        let hdeps: Vec<usize> = t.header_deps_iter().map(|h| self.block_id(&h)).collect();
+        format!(
+            "{} {} {} {} {} {} {}",
+            tid,
+            list(t.input_pts_iter().map(|op| self.op_code(&op)).collect()),
+            list(t.cell_deps_iter().map(|d| self.op_code(&d.out_point())).collect()),
+            list(hdeps),
+            list((0..t.outputs().len()).map(|i| tid as u64 * 16 + i as u64).collect()),
+            self.tx_ok(tid) as u8,
+            t.data().serialized_size_in_block()
+        )
     }
 
     fn block_id(&mut self, h: &Byte32) -> usize {
@@ -252,13 +335,14 @@ impl World {
                 let pm = pool.verif_pool_map();
                 let d = pm.verif_dump();
                 let desc: Vec<HashSet<ProposalShortId>> = d.entries.iter().map(|e| pm.verif_calc_descendants(&e.id)).collect();
-                (d, desc)
+                let anc: Vec<HashSet<ProposalShortId>> = d.entries.iter().map(|e| pm.verif_calc_ancestors(&e.id)).collect();
+                (d, desc, anc)
             })
             .expect("verif_read");
-        let (d, desc) = r;
+        let (d, desc, anc) = r;
         let hd: HashMap<ProposalShortId, Vec<Byte32>> = d.header_deps.iter().cloned().collect();
         let mut v = vec![];
-        for (e, ds) in d.entries.iter().zip(desc.iter()) {
+        for ((e, ds), an) in d.entries.iter().zip(desc.iter()).zip(anc.iter()) {
             let tid = *self.tid_by_short.get(&e.id).expect("known tx");
             let tx = e.entry.transaction().clone();
             let hdeps: Vec<usize> = hd.get(&e.id).cloned().unwrap_or_default().iter().map(|h| self.block_id(h)).collect();
@@ -268,7 +352,10 @@ impl World {
                 spent: tx.input_pts_iter().map(|op| self.op_code(&op)).collect(),
                 deps: tx.cell_deps_iter().map(|d| self.op_code(&d.out_point())).collect(),
                 hdeps,
+                outs: (0..tx.outputs().len()).map(|i| tid as u64 * 16 + i as u64).collect(),
+                size: e.entry.size as u64,
                 desc: ds.iter().map(|x| *self.tid_by_short.get(x).expect("known")).collect(),
+                anc: an.iter().map(|x| *self.tid_by_short.get(x).expect("known")).collect(),
                 timestamp: e.entry.timestamp,
             });
         }
@@ -277,8 +364,9 @@ impl World {
 }
 
 /// one chain change: pool before, chain before, then the block(s); evaluates oracle + emits model lines
-fn after_chain_change(w: &mut World, out: &mut Out, pre: &[PEnt], old_chain: &[Byte32], old_proposed: &HashSet<ProposalShortId>) {
+fn after_chain_change(w: &mut World, out: &mut Out, pre: &Pre) {
     w.sync_pool(out);
+    let old_chain = &pre.chain;
     let new_chain = w.main_chain();
     let post = w.dump();
     let snap = w.main.shared.snapshot();
@@ -292,48 +380,102 @@ fn after_chain_change(w: &mut World, out: &mut Out, pre: &[PEnt], old_chain: &[B
     let att_txs: Vec<TransactionView> = attached.iter().flat_map(|h| block(h).transactions().into_iter().skip(1)).collect();
     let det_txs: Vec<TransactionView> = detached.iter().flat_map(|h| block(h).transactions().into_iter().skip(1)).collect();
     let att_set: HashSet<Byte32> = att_txs.iter().map(|t| t.hash()).collect();
+    let retain: Vec<TransactionView> = det_txs.iter().filter(|t| !att_set.contains(&t.hash())).cloned().collect();
     let new_proposed: HashSet<ProposalShortId> = snap.proposals().set().clone();
     let new_gap: HashSet<ProposalShortId> = snap.proposals().gap().clone();
-    let det_props: Vec<usize> = old_proposed.difference(&new_proposed).filter_map(|id| w.tid_by_short.get(id).cloned()).collect();
+    let det_props: Vec<usize> = pre.proposed.difference(&new_proposed).filter_map(|id| w.tid_by_short.get(id).cloned()).collect();
+    let post_ids: HashSet<usize> = post.iter().map(|e| e.tid).collect();
     // ---- model lines
     out.op("rpool", "ok");
-    for e in pre {
-        out.op(&format!("rent {} {} {} {} {} {}", e.tid, e.status, list(e.spent.clone()), list(e.deps.clone()), list(e.hdeps.clone()), list(e.desc.clone())), "ok");
+    for e in &pre.pool {
+        out.op(&format!("rent {} {} {} {} {} {} {}", e.tid, e.status, list(e.spent.clone()), list(e.deps.clone()), list(e.hdeps.clone()), list(e.outs.clone()), e.size), "ok");
     }
     for t in &att_txs {
-        let tid = match w.tid_by_hash.get(&t.hash()) { Some(t) => *t, None => 0 };
-        out.op(&format!("ratt {} {}", tid, list(t.input_pts_iter().map(|op| w.op_code(&op)).collect())), "ok");
+        let f = w.ctx_fields(t);
+        out.op(&format!("ratt {f}"), "ok");
+    }
+    for t in &det_txs {
+        let f = w.ctx_fields(t);
+        out.op(&format!("rdet {f}"), "ok");
     }
     let det_hdr: Vec<usize> = detached.iter().map(|h| w.block_id(h)).collect();
     let known = |s: &HashSet<ProposalShortId>| -> Vec<usize> { s.iter().filter_map(|id| w.tid_by_short.get(id).cloned()).collect() };
-    out.op(&format!("rargs {} {} {} {}", list(det_hdr), list(det_props), list(known(&new_gap)), list(known(&new_proposed))), "ok");
-    let pre_ids: HashSet<usize> = pre.iter().map(|e| e.tid).collect();
+    out.op(&format!("rargs {} {} {} {} {} {}", list(det_hdr), list(det_props), list(known(&new_gap)), list(known(&new_proposed)), w.cfg.max_ancestors, w.cfg.max_pool_size), "ok");
+    // chain side: live cells before -> live cells after
+    out.op(&format!("rlive {}", list(pre.live.clone())), &list(w.live_codes()));
+    // links: the descendants the real link map gave every entry pooled before
+    {
+        let mut v: Vec<(usize, String)> = pre.pool.iter().map(|e| (e.tid, format!("{}:{}", e.tid, if e.desc.is_empty() { "-".to_string() } else { let mut d = e.desc.clone(); d.sort(); d.iter().map(|x| x.to_string()).collect::<Vec<_>>().join(".") }))).collect();
+        v.sort();
+        out.op("rlinks", &if v.is_empty() { "-".to_string() } else { v.into_iter().map(|x| x.1).collect::<Vec<_>>().join(",") });
+    }
+    let pre_ids: HashSet<usize> = pre.pool.iter().map(|e| e.tid).collect();
+    let retain_ids: Vec<usize> = retain.iter().map(|t| *w.tid_by_hash.get(&t.hash()).expect("harness tx")).collect();
     let expiry_ms = w.cfg.expiry_hours * 3600 * 1000;
     let now = w.clock;
-    let expired: HashSet<usize> = pre.iter().filter(|e| expiry_ms + e.timestamp < now).map(|e| e.tid).collect();
-    let mut surv: Vec<(usize, u8)> = post.iter().filter(|e| pre_ids.contains(&e.tid)).map(|e| (e.tid, e.status)).collect();
+    let expired: HashSet<usize> = pre.pool.iter().filter(|e| expiry_ms + e.timestamp < now).map(|e| e.tid).collect();
+    // everything pooled afterwards is an entry pooled before or a re-added detached-only tx
+    let mut surv: Vec<(usize, u8)> = post.iter().filter(|e| pre_ids.contains(&e.tid) || retain_ids.contains(&e.tid)).map(|e| (e.tid, e.status)).collect();
+    if surv.len() != post.len() {
+        out.count("pooled-from-elsewhere");
+    }
     surv.sort();
     let expired_note = if expired.is_empty() { String::new() } else { format!(" expired={}", list(expired.iter().cloned().collect())) };
-    // expired entries are dropped by remove_expired after the modelled part: tell the model which
+    // expired entries are dropped by remove_expired: the clock is an input of the model
     out.op(&format!("rafter {}", list(expired.iter().cloned().collect())), &format!("{}", if surv.is_empty() { "-".to_string() } else { surv.iter().map(|(t, s)| format!("{t}:{s}")).collect::<Vec<_>>().join(",") }));
-    for t in det_txs.iter().filter(|t| !att_set.contains(&t.hash())) {
-        if let Some(tid) = w.tid_by_hash.get(&t.hash()) {
-            w.ever_detached.insert(*tid);
-        }
+    out.op("rback", &if retain_ids.is_empty() { "-".to_string() } else { retain_ids.iter().map(|t| format!("{}:{}", t, post_ids.contains(t) as u8)).collect::<Vec<_>>().join(",") });
+    for tid in &retain_ids {
+        w.ever_detached.insert(*tid);
     }
     if !expired.is_empty() {
         out.count("update-with-expired-entries");
-        let still: HashSet<usize> = post.iter().map(|e| e.tid).collect();
         for t in &expired {
-            if !still.contains(t) {
+            if !post_ids.contains(t) {
                 w.expired_removed.insert(*t);
             }
+        }
+    }
+    // ---- generator coverage counters (what the attached blocks did to the pool before)
+    {
+        let att_tids: HashSet<usize> = att_txs.iter().filter_map(|t| w.tid_by_hash.get(&t.hash()).cloned()).collect();
+        let att_spent: HashSet<u64> = att_txs.iter().flat_map(|t| t.input_pts_iter().map(|op| w.op_code(&op)).collect::<Vec<_>>()).collect();
+        for e in &pre.pool {
+            if att_tids.contains(&e.tid) {
+                continue;
+            }
+            let by_dep = e.deps.iter().any(|d| att_spent.contains(d));
+            let by_input = e.spent.iter().any(|d| att_spent.contains(d));
+            if by_dep {
+                out.count(if detached.is_empty() { "pooled-dep-consumed-on-extension" } else { "pooled-dep-consumed-on-new-branch" });
+                // the spender of the dep cell was pooled itself (the m1 shape) or not
+                let pooled_spender = pre.pool.iter().any(|x| att_tids.contains(&x.tid) && x.spent.iter().any(|o| e.deps.contains(o)));
+                out.count(if pooled_spender { "pooled-dep-consumed-by-committed-pooled-tx" } else { "pooled-dep-consumed-by-foreign-tx" });
+                // descendants other than the committed spender (and what was committed with it)
+                if e.desc.iter().any(|d| !att_tids.contains(d)) {
+                    out.count("pooled-dep-consumed-with-descendants");
+                }
+            }
+            if by_input {
+                out.count(if detached.is_empty() { "pooled-input-consumed-on-extension" } else { "pooled-input-consumed-on-new-branch" });
+                if !e.desc.is_empty() {
+                    out.count("pooled-input-consumed-with-descendants");
+                }
+            }
+        }
+        if !att_tids.is_empty() && pre.pool.iter().any(|e| att_tids.contains(&e.tid)) && pre.pool.iter().any(|e| !att_tids.contains(&e.tid)) {
+            out.count("commit-of-part-of-the-pool");
         }
     }
     // ---- oracle on the implementation alone
     let suffix = "";
     let pooled: HashMap<usize, &PEnt> = post.iter().map(|e| (e.tid, e)).collect();
     let mut spent_by: HashMap<u64, usize> = HashMap::new();
+    // why an out-point that is neither live nor created in the pool is missing (names the known causes)
+    let missing_class = |w: &World, src: Option<usize>, what: &str| -> String {
+        let orphaned = src.map_or(false, |t| w.ever_detached.contains(&t) && snap.get_transaction_info(&w.txs[t - 1].hash()).is_none());
+        let by_expiry = src.map_or(false, |t| w.expired_removed.contains(&t));
+        if by_expiry { "input-of-expired-parent".to_string() } else if orphaned { "input-of-detached-parent-not-readmitted".to_string() } else { format!("dead-or-unknown-{what}") }
+    };
     for e in &post {
         let tx = &w.txs[e.tid - 1];
         if snap.get_transaction_info(&tx.hash()).is_some() {
@@ -347,11 +489,18 @@ fn after_chain_change(w: &mut World, out: &mut Out, pre: &[PEnt], old_chain: &[B
             let src = w.tid_by_hash.get(&op.tx_hash()).cloned();
             let in_pool = src.map_or(false, |t| pooled.contains_key(&t));
             if !in_pool && !snap.have_cell(&op) {
-                // the producing tx was committed on an abandoned branch and could not be re-admitted
-                let orphaned = src.map_or(false, |t| w.ever_detached.contains(&t) && snap.get_transaction_info(&w.txs[t - 1].hash()).is_none());
-                let by_expiry = src.map_or(false, |t| w.expired_removed.contains(&t));
-                let cls = if by_expiry { "input-of-expired-parent" } else if orphaned { "input-of-detached-parent-not-readmitted" } else { "dead-or-unknown-input" };
+                let cls = missing_class(w, src, "input");
                 out.oracle_fail(&format!("{cls}{suffix}"), &format!("tx{} input {} (tx{:?}) is neither live on the new chain nor an output of a pooled tx{}", e.tid, code, src, expired_note));
+            }
+        }
+        for d in tx.cell_deps_iter() {
+            let op = d.out_point();
+            let code = w.op_code(&op);
+            let src = w.tid_by_hash.get(&op.tx_hash()).cloned();
+            let in_pool = src.map_or(false, |t| pooled.contains_key(&t));
+            if !in_pool && !snap.have_cell(&op) {
+                let cls = missing_class(w, src, "cell-dep");
+                out.oracle_fail(&format!("{cls}{suffix}"), &format!("tx{} cell dep {} (tx{:?}) is neither live on the new chain nor an output of a pooled tx{}", e.tid, code, src, expired_note));
             }
         }
         for h in tx.header_deps_iter() {
@@ -366,46 +515,71 @@ fn after_chain_change(w: &mut World, out: &mut Out, pre: &[PEnt], old_chain: &[B
             out.oracle_fail(&format!("{cls}{suffix}"), &format!("tx{} status {} but window says {} (0 pending 1 gap 2 proposed){}", e.tid, e.status, want, expired_note));
         }
     }
+    // the pool's own rule for a cell that one pooled tx depends on and another spends: the spender
+    // is recorded as a descendant of the dep user (so it is never selected or kept without it)
+    for e in &post {
+        for d in &e.deps {
+            if let Some(sp) = spent_by.get(d) {
+                if *sp != e.tid && !e.desc.contains(sp) {
+                    out.oracle_fail(&format!("dep-spent-by-non-descendant{suffix}"), &format!("tx{} depends on {} which pooled tx{} spends without being its descendant", e.tid, d, sp));
+                }
+            }
+        }
+    }
     // lost txs: committed only on the abandoned branch, still admissible -> must be back
-    let mut have: HashSet<usize> = post.iter().map(|e| e.tid).collect();
-    let mut pool_spent: HashSet<u64> = spent_by.keys().cloned().collect();
-    for t in det_txs.iter().filter(|t| !att_set.contains(&t.hash())) {
-        let tid = match w.tid_by_hash.get(&t.hash()) { Some(t) => *t, None => continue };
+    let have: HashSet<usize> = post_ids.clone();
+    let pool_spent: HashSet<u64> = spent_by.keys().cloned().collect();
+    for t in retain.iter() {
+        let tid = *w.tid_by_hash.get(&t.hash()).expect("harness tx");
         out.count("detached-only-tx");
         if have.contains(&tid) {
             out.count("detached-only-tx-back");
             continue;
         }
-        let resolvable = t.input_pts_iter().all(|op| {
+        let cell_ok = |op: &OutPoint| -> bool {
             let src = w.tid_by_hash.get(&op.tx_hash()).cloned();
-            snap.have_cell(&op) || src.map_or(false, |s| have.contains(&s))
-        });
-        let conflict = t.input_pts_iter().any(|op| pool_spent.contains(&w.op_code(&op)));
+            (snap.have_cell(op) || src.map_or(false, |s| have.contains(&s))) && !pool_spent.contains(&w.op_code(op))
+        };
+        let resolvable = t.input_pts_iter().all(|op| cell_ok(&op)) && t.cell_deps_iter().all(|d| cell_ok(&d.out_point()));
         let hdr_ok = t.header_deps_iter().all(|h| snap.is_main_chain(&h));
-        // ancestor policy: 1 + number of pooled ancestors must not exceed max_ancestors_count
+        // ancestor policy: 1 + number of pooled ancestors must not exceed max_ancestors_count;
+        // parents: pooled creators of inputs / cell deps and pooled txs depending on a spent cell
         let mut anc: HashSet<usize> = HashSet::new();
-        let mut stack: Vec<usize> = t.input_pts_iter().filter_map(|op| w.tid_by_hash.get(&op.tx_hash()).cloned()).filter(|s| have.contains(s)).collect();
-        while let Some(x) = stack.pop() {
-            if anc.insert(x) {
-                for op in w.txs[x - 1].input_pts_iter() {
-                    if let Some(s) = w.tid_by_hash.get(&op.tx_hash()) {
-                        if have.contains(s) {
-                            stack.push(*s);
-                        }
-                    }
+        let mut parents: Vec<usize> = vec![];
+        for op in t.input_pts_iter().chain(t.cell_deps_iter().map(|d| d.out_point())) {
+            if let Some(s) = w.tid_by_hash.get(&op.tx_hash()) {
+                if have.contains(s) {
+                    parents.push(*s);
                 }
+            }
+        }
+        for op in t.input_pts_iter() {
+            let code = w.op_code(&op);
+            for e in &post {
+                if e.deps.contains(&code) {
+                    parents.push(e.tid);
+                }
+            }
+        }
+        for x in parents {
+            anc.insert(x);
+            for a in &pooled[&x].anc {
+                anc.insert(*a);
             }
         }
         let within_policy = (anc.len() as u64) + 1 <= w.cfg.max_ancestors;
         if !within_policy {
             out.count("detached-only-tx-over-ancestor-limit");
         }
-        if resolvable && !conflict && hdr_ok && within_policy {
+        let fee_ok = w.tx_ok(tid);
+        if !fee_ok {
+            out.count("detached-only-tx-below-min-fee");
+        }
+        if resolvable && hdr_ok && within_policy && fee_ok {
             out.oracle_fail(&format!("lost-tx{suffix}"), &format!("tx{tid} was committed only on the abandoned branch, is resolvable on the new chain + pool, but is not pooled"));
         } else {
             out.count("detached-only-tx-inadmissible");
         }
-        let _ = (&mut have, &mut pool_spent);
     }
     out.count("chain-change");
     if !post.is_empty() {
@@ -426,11 +600,11 @@ fn exec(w: &mut Option<World>, out: &mut Out, base: &Path, line: &str) {
             if let Some(old) = w.take() {
                 old.finish();
             }
-            let cfg = Cfg { epoch_len: n[0], w_close: n[1], w_far: n[2], interval_ms: n[3], expiry_hours: n[4], max_ancestors: n[5] };
+            let cfg = Cfg { epoch_len: n[0], w_close: n[1], w_far: n[2], interval_ms: n[3], expiry_hours: n[4], max_ancestors: n[5], min_fee_rate: 0, max_pool_size: 0 };
             *w = Some(World::new(base, out.case, cfg));
             out.op(line, "ok");
         }
-        "rpool" | "rent" | "ratt" | "rargs" | "rafter" => {}
+        "rpool" | "rent" | "ratt" | "rdet" | "rargs" | "rlive" | "rlinks" | "rafter" | "rback" => {}
         _ => {
             let w = w.as_mut().expect("cfg first");
             match ts[0] {
@@ -457,9 +631,20 @@ fn exec(w: &mut Option<World>, out: &mut Out, base: &Path, line: &str) {
                         tx = tx.as_advanced_builder().header_dep(h).build();
                         out.count("submit-with-header-dep");
                     }
+                    if ts.len() > 6 && ts[6] != "-" {
+                        for p in ts[6].split(',') {
+                            let (a, b) = p.split_once('.').expect("t.i");
+                            let (t, i): (usize, usize) = (a.parse().unwrap(), b.parse().unwrap());
+                            assert!(t <= w.txs.len());
+                            let (op, _) = w.out_point(t, i);
+                            tx = tx.as_advanced_builder().cell_dep(CellDep::new_builder().out_point(op).dep_type(DepType::Code).build()).build();
+                        }
+                        out.count("submit-with-cell-dep");
+                    }
                     w.tid_by_short.insert(tx.proposal_short_id(), tid);
                     w.tid_by_hash.insert(tx.hash(), tid);
                     w.txs.push(tx.clone());
+                    w.fees.push(fee);
                     match w.tpc().submit_local_tx(tx) {
                         Ok(Ok(())) => out.count("submit-accepted"),
                         Ok(Err(_)) => out.count("submit-rejected"),
@@ -478,9 +663,7 @@ fn exec(w: &mut Option<World>, out: &mut Out, base: &Path, line: &str) {
                     } else {
                         std::thread::sleep(Duration::from_millis(2));
                     }
-                    let pre = w.dump();
-                    let old_chain = w.main_chain();
-                    let old_proposed = w.main.shared.snapshot().proposals().set().clone();
+                    let pre = w.pre();
                     if let Ok(Ok(t)) = w.tpc().get_block_template(None, None, None) {
                         let b: packed::Block = t.into();
                         let b = b.into_view();
@@ -493,7 +676,7 @@ fn exec(w: &mut Option<World>, out: &mut Out, base: &Path, line: &str) {
                                 if b.transactions().len() > 1 {
                                     out.count("mined-with-commits");
                                 }
-                                after_chain_change(w, out, &pre, &old_chain, &old_proposed);
+                                after_chain_change(w, out, &pre);
                             } else {
                                 out.count("own-template-rejected");
                             }
@@ -504,6 +687,12 @@ fn exec(w: &mut Option<World>, out: &mut Out, base: &Path, line: &str) {
                 "fork" => {
                     let n = nums(&ts[1..]);
                     do_fork(w, out, n[0], n[1], n[2] as usize, n[3] as usize);
+                    out.op(line, "ok");
+                }
+                "forkx" => {
+                    let n = nums(&ts[1..3]);
+                    let tids = |t: &str| -> Vec<usize> { if t == "-" { vec![] } else { t.split(',').map(|x| x.parse::<usize>().expect("tid")).collect() } };
+                    do_forkx(w, out, n[0], n[1], &tids(ts[3]), &tids(ts[4]));
                     out.op(line, "ok");
                 }
                 other => panic!("bad op {other}"),
@@ -535,7 +724,8 @@ fn do_fork(w: &mut World, out: &mut Out, back: u64, extra: u64, nprop: usize, nc
                 continue;
             }
             let hdr_ok = tx.header_deps_iter().all(|h| store.is_main_chain(&h));
-            let ok = hdr_ok && tx.input_pts_iter().all(|op| !used.contains(&op) && (made.contains(&op.tx_hash()) || store.have_cell(&op)));
+            let avail = |op: &OutPoint| !used.contains(op) && (made.contains(&op.tx_hash()) || store.have_cell(op));
+            let ok = hdr_ok && tx.input_pts_iter().all(|op| avail(&op)) && tx.cell_deps_iter().all(|d| avail(&d.out_point()));
             if ok {
                 for op in tx.input_pts_iter() {
                     used.insert(op);
@@ -545,25 +735,30 @@ fn do_fork(w: &mut World, out: &mut Out, back: u64, extra: u64, nprop: usize, nc
             }
         }
     }
+    run_branch(w, out, fork_point, len, &proposals, &commits, 3);
+}
+
+/// the blocks of a branch: the first proposes, the commitments follow from block 1+w_close on
+/// (at most `per_block` per block, inside the window of the first block's proposals); every block
+/// that becomes the tip is a chain change
+fn run_branch(w: &mut World, out: &mut Out, fork_point: Byte32, len: u64, proposals: &[ProposalShortId], commits: &[TransactionView], per_block: usize) {
     let mut parent = fork_point;
     let mut ci = 0;
     for j in 1..=len {
         w.salt += 1;
         let mut spec = BlockSpec { salt: w.salt, ..Default::default() };
         if j == 1 {
-            spec.proposals = proposals.clone();
+            spec.proposals = proposals.to_vec();
         }
         if j >= 1 + w.cfg.w_close && j <= 1 + w.cfg.w_far {
-            while ci < commits.len() && spec.txs.len() < 3 {
+            while ci < commits.len() && spec.txs.len() < per_block {
                 spec.txs.push(commits[ci].clone());
                 ci += 1;
             }
         }
         let b = w.builder.build(&parent, &spec);
         w.block_id(&b.hash());
-        let pre = w.dump();
-        let old_chain = w.main_chain();
-        let old_proposed = w.main.shared.snapshot().proposals().set().clone();
+        let pre = w.pre();
         let r = w.main.process(&b);
         if r.is_err() {
             out.count("fork-block-rejected");
@@ -573,7 +768,7 @@ fn do_fork(w: &mut World, out: &mut Out, back: u64, extra: u64, nprop: usize, nc
             if !spec.txs.is_empty() {
                 out.count("fork-commit-on-new-main");
             }
-            after_chain_change(w, out, &pre, &old_chain, &old_proposed);
+            after_chain_change(w, out, &pre);
         }
         parent = b.hash();
     }
@@ -584,9 +779,68 @@ fn do_fork(w: &mut World, out: &mut Out, back: u64, extra: u64, nprop: usize, nc
     }
 }
 
+/// another miner's blocks with an explicit choice of proposals and commitments
+fn do_forkx(w: &mut World, out: &mut Out, back: u64, len: u64, props: &[usize], commits: &[usize]) {
+    let snap = w.main.shared.snapshot();
+    let tipn = snap.tip_number();
+    let back = back.min(tipn);
+    let fork_point = snap.get_block_hash(tipn - back).expect("fork point");
+    drop(snap);
+    let len = len.max(back + 1);
+    let proposals: Vec<ProposalShortId> = props.iter().filter(|t| **t >= 1 && **t <= w.txs.len()).map(|t| w.txs[*t - 1].proposal_short_id()).collect();
+    let proposed: HashSet<ProposalShortId> = proposals.iter().cloned().collect();
+    let mut txs: Vec<TransactionView> = vec![];
+    {
+        // keep what is valid on that branch: proposed there, not committed below the fork point, inputs
+        // and cell deps live below the fork point or created by an earlier commitment and not consumed
+        let store = w.builder.replay_store(&fork_point);
+        let mut made: HashSet<Byte32> = HashSet::new();
+        let mut used: HashSet<OutPoint> = HashSet::new();
+        for t in commits {
+            if *t < 1 || *t > w.txs.len() {
+                continue;
+            }
+            let tx = &w.txs[*t - 1];
+            if store.get_transaction_info(&tx.hash()).is_some() || made.contains(&tx.hash()) {
+                out.count("forkx-commit-already-on-branch");
+                continue;
+            }
+            if !proposed.contains(&tx.proposal_short_id()) {
+                out.count("forkx-commit-dropped");
+                continue;
+            }
+            let hdr_ok = tx.header_deps_iter().all(|h| store.is_main_chain(&h));
+            let avail = |op: &OutPoint| !used.contains(op) && (made.contains(&op.tx_hash()) || store.have_cell(op));
+            let ok = hdr_ok && tx.input_pts_iter().all(|op| avail(&op)) && tx.cell_deps_iter().all(|d| avail(&d.out_point()));
+            if ok {
+                for op in tx.input_pts_iter() {
+                    used.insert(op);
+                }
+                made.insert(tx.hash());
+                txs.push(tx.clone());
+                out.count("forkx-commit-kept");
+            } else {
+                out.count("forkx-commit-dropped");
+            }
+        }
+    }
+    out.count(if back == 0 { "forkx-extension" } else { "forkx-branch" });
+    run_branch(w, out, fork_point, len, &proposals, &txs, 4);
+}
+
+/// what the generator remembers of a submitted transaction
+#[derive(Clone)]
+struct GTx {
+    inputs: Vec<(usize, usize)>,
+    deps: Vec<(usize, usize)>,
+}
+
 struct Gen {
     free: Vec<(usize, usize, u64)>,
     spent: Vec<(usize, usize, u64)>,
+    /// cells some submitted tx depends on (still spendable)
+    dep_cells: Vec<(usize, usize, u64)>,
+    txs: Vec<GTx>,
     next_tid: usize,
 }
 
@@ -603,19 +857,24 @@ fn gen_submit(g: &mut Gen, rng: &mut Rng) -> Option<String> {
         g.spent.push(x);
         x
     };
-    if mode < 45 {
+    if mode < 40 {
         let idx = g.free.len() - 1;
         picks.push(take(g, idx));
-    } else if mode < 60 {
+    } else if mode < 52 {
         let idx = rng.below(g.free.len() as u64) as usize;
         picks.push(take(g, idx));
         if !g.free.is_empty() {
             let idx = g.free.len() - 1 - rng.below((g.free.len() as u64).min(4)) as usize;
             picks.push(take(g, idx));
         }
-    } else if mode < 85 {
+    } else if mode < 72 {
         let cands: Vec<usize> = (0..g.free.len()).filter(|i| g.free[*i].0 == 0).collect();
         let idx = if cands.is_empty() { rng.below(g.free.len() as u64) as usize } else { *rng.pick(&cands) };
+        picks.push(take(g, idx));
+    } else if mode < 86 {
+        // spend a cell that an earlier transaction depends on (the spender becomes its link child)
+        let cands: Vec<usize> = (0..g.free.len()).filter(|i| g.dep_cells.iter().any(|d| d.0 == g.free[*i].0 && d.1 == g.free[*i].1)).collect();
+        let idx = if cands.is_empty() { g.free.len() - 1 } else { *rng.pick(&cands) };
         picks.push(take(g, idx));
     } else {
         if g.spent.is_empty() {
@@ -624,7 +883,8 @@ fn gen_submit(g: &mut Gen, rng: &mut Rng) -> Option<String> {
         picks.push(*rng.pick(&g.spent));
     }
     let total: u64 = picks.iter().map(|p| p.2).sum();
-    let fee = *rng.pick(&[500u64, 1000, 2000, 5000, 100_000]);
+    // 100 shannons is below the pool's min fee: such a tx only ever enters a block of another miner
+    let fee = *rng.pick(&[500u64, 1000, 2000, 5000, 100_000, 1000, 2000, 100]);
     let mut n_out = 1 + rng.below(2) as usize;
     while n_out > 1 && total < n_out as u64 * 150 * CKB + fee {
         n_out -= 1;
@@ -632,15 +892,273 @@ fn gen_submit(g: &mut Gen, rng: &mut Rng) -> Option<String> {
     if total < 150 * CKB + fee {
         return None;
     }
+    // cell deps: on a still unspent cell (a genesis cell or an output of an earlier, maybe pooled, tx)
+    let mut deps: Vec<(usize, usize, u64)> = vec![];
+    if rng.chance(1, 4) {
+        let cands: Vec<(usize, usize, u64)> = g.free.iter().filter(|c| !picks.iter().any(|p| p.0 == c.0 && p.1 == c.1)).cloned().collect();
+        if !cands.is_empty() {
+            // mostly a fresh genesis cell or the newest output, sometimes any
+            let c = match rng.below(3) {
+                0 => *cands.last().unwrap(),
+                1 => *cands.iter().find(|c| c.0 == 0).unwrap_or(&cands[0]),
+                _ => *rng.pick(&cands),
+            };
+            deps.push(c);
+            if !g.dep_cells.iter().any(|d| d.0 == c.0 && d.1 == c.1) {
+                g.dep_cells.push(c);
+            }
+        }
+    }
     let tid = g.next_tid;
     g.next_tid += 1;
     let each = (total - fee) / n_out as u64;
     for i in 0..n_out {
         g.free.push((tid, i, each));
     }
+    g.txs.push(GTx { inputs: picks.iter().map(|p| (p.0, p.1)).collect(), deps: deps.iter().map(|p| (p.0, p.1)).collect() });
     let ins = picks.iter().map(|p| format!("{}.{}", p.0, p.1)).collect::<Vec<_>>().join(",");
     let hdep = if rng.chance(1, 6) { rng.below(4).to_string() } else { "-".to_string() };
-    Some(format!("submit {} {} {} {} {}", tid, ins, n_out, fee, hdep))
+    let dl = if deps.is_empty() { "-".to_string() } else { deps.iter().map(|p| format!("{}.{}", p.0, p.1)).collect::<Vec<_>>().join(",") };
+    Some(format!("submit {} {} {} {} {} {}", tid, ins, n_out, fee, hdep, dl))
+}
+
+/// a submission with the given inputs and cell deps (cells of `g.free`, by position-independent identity)
+fn gen_emit(g: &mut Gen, picks: &[(usize, usize, u64)], deps: &[(usize, usize, u64)], fee: u64, n_out: usize, hdep: Option<u64>) -> Option<String> {
+    let total: u64 = picks.iter().map(|p| p.2).sum();
+    let mut n_out = n_out;
+    while n_out > 1 && total < n_out as u64 * 150 * CKB + fee {
+        n_out -= 1;
+    }
+    if picks.is_empty() || total < 150 * CKB + fee {
+        return None;
+    }
+    for p in picks {
+        if let Some(i) = g.free.iter().position(|c| c.0 == p.0 && c.1 == p.1) {
+            let x = g.free.remove(i);
+            g.spent.push(x);
+        }
+    }
+    for c in deps {
+        if !g.dep_cells.iter().any(|d| d.0 == c.0 && d.1 == c.1) {
+            g.dep_cells.push(*c);
+        }
+    }
+    let tid = g.next_tid;
+    g.next_tid += 1;
+    let each = (total - fee) / n_out as u64;
+    for i in 0..n_out {
+        g.free.push((tid, i, each));
+    }
+    g.txs.push(GTx { inputs: picks.iter().map(|p| (p.0, p.1)).collect(), deps: deps.iter().map(|p| (p.0, p.1)).collect() });
+    let ins = picks.iter().map(|p| format!("{}.{}", p.0, p.1)).collect::<Vec<_>>().join(",");
+    let dl = if deps.is_empty() { "-".to_string() } else { deps.iter().map(|p| format!("{}.{}", p.0, p.1)).collect::<Vec<_>>().join(",") };
+    Some(format!("submit {} {} {} {} {} {}", tid, ins, n_out, fee, hdep.map_or("-".to_string(), |d| d.to_string()), dl))
+}
+
+/// a chain of `n` transactions behind output 0 of `tid`
+fn gen_chain(g: &mut Gen, rng: &mut Rng, tid: usize, n: u64, lines: &mut Vec<String>) {
+    let mut cur = tid;
+    for _ in 0..n {
+        let Some(c) = g.free.iter().find(|c| c.0 == cur).cloned() else { return };
+        let fee = *rng.pick(&[1000u64, 2000, 5000]);
+        match gen_emit(g, &[c], &[], fee, 1 + rng.below(2) as usize, None) {
+            Some(l) => {
+                cur = g.next_tid - 1;
+                lines.push(l);
+            }
+            None => return,
+        }
+    }
+}
+
+fn list_usize(v: &[usize]) -> String {
+    if v.is_empty() { "-".to_string() } else { v.iter().map(|x| x.to_string()).collect::<Vec<_>>().join(",") }
+}
+
+/// directed families: a pooled transaction is committed by another miner WITHOUT the pooled
+/// transactions it conflicts with (cell dep / input / header dep), on an extension or a new branch,
+/// with chains of descendants behind each side
+fn gen_burst(g: &mut Gen, rng: &mut Rng, w_close: u64, w_far: u64) -> Vec<String> {
+    let mut lines: Vec<String> = vec![];
+    let fresh = |g: &Gen, not: &[(usize, usize, u64)]| -> Option<(usize, usize, u64)> { g.free.iter().find(|c| c.0 == 0 && !not.iter().any(|n| n.0 == c.0 && n.1 == c.1)).cloned() };
+    let back = if rng.chance(1, 2) { 0 } else { rng.range(1, w_far + 2) };
+    let mines = rng.below(3);
+    let kind = rng.below(10);
+    if kind < 5 {
+        // B depends on cell X, A spends X; A (and what it needs) is committed without B
+        let Some(y) = fresh(g, &[]) else { return lines };
+        // X: a fresh genesis cell, or an output of a (probably pooled) recent transaction
+        let x = if rng.chance(1, 3) { g.free.iter().rev().find(|c| c.0 != 0).cloned() } else { None };
+        let Some(x) = x.or_else(|| fresh(g, &[y])) else { return lines };
+        let Some(lb) = gen_emit(g, &[y], &[x], *rng.pick(&[1000u64, 2000, 5000]), 2, None) else { return lines };
+        let b = g.next_tid - 1;
+        lines.push(lb);
+        let k = rng.below(3);
+        gen_chain(g, rng, b, k, &mut lines);
+        let mut a_in = vec![x];
+        if rng.chance(1, 4) {
+            if let Some(z) = fresh(g, &[x]) {
+                a_in.push(z);
+            }
+        }
+        // (100 shannons: below the pool's min fee, A is then known to the other miner only)
+        let Some(la) = gen_emit(g, &a_in, &[], *rng.pick(&[1000u64, 2000, 100_000, 100]), 2, None) else { return lines };
+        let a = g.next_tid - 1;
+        lines.push(la);
+        let k = rng.below(3);
+        gen_chain(g, rng, a, k, &mut lines);
+        for _ in 0..mines {
+            lines.push("mine".to_string());
+        }
+        let skip: HashSet<usize> = [b].into_iter().collect();
+        if let Some(commits) = gen_closure(g, a, &skip) {
+            let mut props = commits.clone();
+            if rng.chance(1, 2) {
+                props.push(b);
+            }
+            let len = (back + 1).max(w_close + 1 + (commits.len() as u64) / 4) + rng.below(2);
+            lines.push(format!("forkx {} {} {} {}", back, len, list_usize(&props), list_usize(&commits)));
+        }
+    } else if kind < 8 {
+        // C and C' spend the same cell (the pool keeps one of them): the other miner commits either
+        let Some(y) = fresh(g, &[]) else { return lines };
+        let Some(lc) = gen_emit(g, &[y], &[], *rng.pick(&[1000u64, 2000]), 2, None) else { return lines };
+        let c = g.next_tid - 1;
+        lines.push(lc);
+        let k = rng.below(4);
+        gen_chain(g, rng, c, k, &mut lines);
+        // the twin: same input again (refused, or replaces C and its chain when it pays enough)
+        g.free.push(y);
+        let Some(lt) = gen_emit(g, &[y], &[], *rng.pick(&[500u64, 1000, 100_000, 100]), 1, None) else { return lines };
+        let t = g.next_tid - 1;
+        lines.push(lt);
+        for _ in 0..mines {
+            lines.push("mine".to_string());
+        }
+        let pick = if rng.chance(2, 3) { t } else { c };
+        let commits = vec![pick];
+        let props = if rng.chance(1, 2) { vec![c, t] } else { vec![pick] };
+        let len = (back + 1).max(w_close + 1) + rng.below(2);
+        lines.push(format!("forkx {} {} {} {}", back, len, list_usize(&props), list_usize(&commits)));
+    } else {
+        // H has a header dep on a recent block, with a chain behind it; a branch without any
+        // commitment detaches that block
+        let Some(y) = fresh(g, &[]) else { return lines };
+        let Some(lh) = gen_emit(g, &[y], &[], 2000, 2, Some(rng.below(3))) else { return lines };
+        let h = g.next_tid - 1;
+        lines.push(lh);
+        let k = rng.below(3);
+        gen_chain(g, rng, h, k, &mut lines);
+        let back = rng.range(1, w_far + 2);
+        lines.push(format!("forkx {} {} - -", back, back + 1 + rng.below(2)));
+    }
+    lines
+}
+
+/// the transactions `t` needs committed before it (creators of its inputs and cell deps), `t` last
+fn gen_closure(g: &Gen, t: usize, skip: &HashSet<usize>) -> Option<Vec<usize>> {
+    let mut need: Vec<usize> = vec![];
+    let mut stack = vec![t];
+    while let Some(x) = stack.pop() {
+        if skip.contains(&x) {
+            return None; // cannot be committed without a transaction that is to be left out
+        }
+        if need.contains(&x) {
+            continue;
+        }
+        need.push(x);
+        let gt = &g.txs[x - 1];
+        for (p, _) in gt.inputs.iter().chain(gt.deps.iter()) {
+            if *p != 0 {
+                stack.push(*p);
+            }
+        }
+    }
+    need.sort();
+    Some(need)
+}
+
+/// blocks of another miner: commit a transaction WITHOUT the transactions it conflicts with
+fn gen_forkx(g: &Gen, rng: &mut Rng, w_close: u64, w_far: u64) -> Option<String> {
+    let n = g.txs.len();
+    if n == 0 {
+        return None;
+    }
+    let recent = |rng: &mut Rng| -> usize { n - rng.below((n as u64).min(12)) as usize };
+    let mut commits: Vec<usize> = vec![];
+    let mut skip: HashSet<usize> = HashSet::new();
+    let shape = rng.below(10);
+    if shape < 5 {
+        // a spender A of a cell X that another transaction B depends on: commit A, leave B out
+        let mut pairs: Vec<(usize, usize)> = vec![];
+        for (ai, a) in g.txs.iter().enumerate() {
+            for (bi, b) in g.txs.iter().enumerate() {
+                if ai != bi && b.deps.iter().any(|d| a.inputs.contains(d)) {
+                    pairs.push((ai + 1, bi + 1));
+                }
+            }
+        }
+        if pairs.is_empty() {
+            return None;
+        }
+        // prefer the latest pairs (still pooled)
+        let k = pairs.len() - 1 - rng.below((pairs.len() as u64).min(4)) as usize;
+        let (a, b) = pairs[k];
+        skip.insert(b);
+        commits = gen_closure(g, a, &skip)?;
+    } else if shape < 8 {
+        // one of two transactions spending the same cell (the later one was refused by the pool or
+        // replaced the earlier one): commit it with what it needs
+        let mut seen: HashMap<(usize, usize), usize> = HashMap::new();
+        let mut twins: Vec<(usize, usize)> = vec![];
+        for (i, t) in g.txs.iter().enumerate() {
+            for inp in &t.inputs {
+                if let Some(first) = seen.get(inp) {
+                    twins.push((*first, i + 1));
+                } else {
+                    seen.insert(*inp, i + 1);
+                }
+            }
+        }
+        if twins.is_empty() {
+            return None;
+        }
+        let k = twins.len() - 1 - rng.below((twins.len() as u64).min(4)) as usize;
+        let (first, second) = twins[k];
+        let (c, other) = if rng.chance(2, 3) { (second, first) } else { (first, second) };
+        skip.insert(other);
+        commits = gen_closure(g, c, &skip)?;
+    } else {
+        // a recent transaction with what it needs, nothing else
+        let t = recent(rng);
+        commits = gen_closure(g, t, &skip)?;
+    }
+    if rng.chance(1, 4) {
+        // and an unrelated recent one
+        let t = recent(rng);
+        if !skip.contains(&t) {
+            if let Some(more) = gen_closure(g, t, &skip) {
+                for x in more {
+                    if !commits.contains(&x) {
+                        commits.push(x);
+                    }
+                }
+                commits.sort();
+            }
+        }
+    }
+    let mut props = commits.clone();
+    for _ in 0..rng.below(3) {
+        let t = recent(rng);
+        if !props.contains(&t) {
+            props.push(t);
+        }
+    }
+    let back = if rng.chance(2, 5) { 0 } else { rng.range(1, w_far + 2) };
+    let need = (commits.len() as u64 + 3) / 4;
+    let len = (back + 1).max(w_close + need) + rng.below(2);
+    let l = |v: &Vec<usize>| v.iter().map(|x| x.to_string()).collect::<Vec<_>>().join(",");
+    Some(format!("forkx {} {} {} {}", back, len, l(&props), l(&commits)))
 }
 
 fn gen_case(out: &mut Out, base: &Path, rng: &mut Rng, steps: u64) {
@@ -651,26 +1169,39 @@ fn gen_case(out: &mut Out, base: &Path, rng: &mut Rng, steps: u64) {
     out.begin_case(&format!("window={w_close},{w_far} expiry={expiry_case}"));
     let mut w: Option<World> = None;
     exec(&mut w, out, base, &cfgl);
-    let mut g = Gen { free: (0..24).map(|i| (0usize, i, 50_000 * CKB)).collect(), spent: vec![], next_tid: 1 };
+    let mut g = Gen { free: (0..24).map(|i| (0usize, i, 50_000 * CKB)).collect(), spent: vec![], dep_cells: vec![], txs: vec![], next_tid: 1 };
     let mut fp = String::new();
     for _ in 0..steps {
         let r = rng.below(100);
+        if r >= 93 && rng.chance(1, 2) {
+            // a directed family (several lines)
+            for line in gen_burst(&mut g, rng, w_close, w_far) {
+                fp.push(if line.starts_with("forkx") { 'X' } else { (line.as_bytes()[0] as char).to_ascii_uppercase() });
+                exec(&mut w, out, base, &line);
+            }
+            continue;
+        }
         let line = if r < 45 {
             match gen_submit(&mut g, rng) {
                 Some(l) => l,
                 None => continue,
             }
-        } else if r < 75 {
+        } else if r < 70 {
             "mine".to_string()
-        } else if r < 92 {
+        } else if r < 82 {
             let back = rng.range(1, w_far + 2);
             format!("fork {} {} {} {}", back, rng.range(1, 2), rng.below(10), rng.below(5))
+        } else if r < 93 {
+            match gen_forkx(&g, rng, w_close, w_far) {
+                Some(l) => l,
+                None => continue,
+            }
         } else if expiry_case {
             format!("time {}", rng.range(10, 35) * 60 * 1000)
         } else {
             format!("time {}", rng.range(1, 50))
         };
-        fp.push(line.as_bytes()[0] as char);
+        fp.push(if line.starts_with("forkx") { 'x' } else { line.as_bytes()[0] as char });
         exec(&mut w, out, base, &line);
     }
     exec(&mut w, out, base, "mine");
@@ -708,6 +1239,6 @@ pub fn run(opts: &Opts) {
         }
     }
     let _ = std::fs::remove_dir_all(&base);
-    out.finish("a case is non-trivial by its op-kind sequence (submit/mine/fork/time)");
+    out.finish("a case is non-trivial by its op-kind sequence (submit/mine/fork/forkx/time)");
     std::process::exit(0);
 }
